@@ -186,4 +186,11 @@ def rule_steps(ctx: Ctx):
                   f"self._register_callbacks({reg_arg}) validates before add_listener re-attaches the listeners")
 
 
-RULES = [rule_carry, rule_excluded, rule_steps]
+def rule_restart_guard(ctx: Ctx):
+    """C17.steps: `start()` on the restored machine must leave a stored state alone whatever its value (None-test)."""
+    from . import c11
+
+    c11.rule_guard(ctx, rule="C17.steps")
+
+
+RULES = [rule_carry, rule_excluded, rule_steps, rule_restart_guard]
